@@ -788,6 +788,22 @@ impl GlobalInferenceCtx<'_> {
         }
     }
 
+    /// `pp[i]` and `pp.field` follow EVERY pointer level of `pp` (`pp : ^mut ^[3]i32`). The data
+    /// is reached through the innermost pointer, so that is the one which has to be `^mut`.
+    /// `None` if there are fewer than two levels (the ordinary walk handles those).
+    fn innermost_auto_deref(&self, ty: Intern<Ty>) -> Option<bool> {
+        let (mut innermost, mut sub_ty) = ty.as_pointer()?;
+        let mut levels = 1;
+
+        while let Some((mutable, next)) = sub_ty.as_pointer() {
+            innermost = mutable;
+            sub_ty = next;
+            levels += 1;
+        }
+
+        (levels >= 2).then_some(innermost)
+    }
+
     fn get_mutability_by_form(
         &self,
         expr: Idx<Expr>,
@@ -806,11 +822,21 @@ impl GlobalInferenceCtx<'_> {
                 _ => ExprMutability::ImmutableRef(self.bodies.range_for_expr(expr)),
             },
             Expr::Deref { pointer } => self.get_mutability(*pointer, assignment, true),
-            Expr::Index { source: array, .. } => self.get_mutability(
-                *array,
-                assignment,
-                deref || self.tys[self.loc][*array].is_pointer(),
-            ),
+            Expr::Index { source: array, .. } => {
+                let array_ty = self.tys[self.loc][*array];
+
+                match self.innermost_auto_deref(array_ty) {
+                    Some(true) => ExprMutability::Mutable,
+                    Some(false) => match self.get_mutability(*array, assignment, true) {
+                        ExprMutability::Mutable => {
+                            ExprMutability::ImmutableRef(self.bodies.range_for_expr(*array))
+                        }
+                        // keep the more precise help of the ordinary walk
+                        other => other,
+                    },
+                    None => self.get_mutability(*array, assignment, deref || array_ty.is_pointer()),
+                }
+            }
             Expr::Block {
                 tail_expr: Some(tail_expr),
                 ..
@@ -898,11 +924,21 @@ impl GlobalInferenceCtx<'_> {
                             ExprMutability::ImmutableRef(field.range)
                         }
                     }
-                    _ => self.get_mutability(
-                        *previous,
-                        assignment,
-                        deref || previous_ty.is_pointer(),
-                    ),
+                    _ => match self.innermost_auto_deref(previous_ty) {
+                        Some(true) => ExprMutability::Mutable,
+                        Some(false) => match self.get_mutability(*previous, assignment, true) {
+                            ExprMutability::Mutable => {
+                                ExprMutability::ImmutableRef(self.bodies.range_for_expr(*previous))
+                            }
+                            // keep the more precise help of the ordinary walk
+                            other => other,
+                        },
+                        None => self.get_mutability(
+                            *previous,
+                            assignment,
+                            deref || previous_ty.is_pointer(),
+                        ),
+                    },
                 }
             }
             Expr::Call { .. } if deref => ExprMutability::Mutable,
